@@ -203,6 +203,7 @@ func writeSTL(wg *sync.WaitGroup, path string) (chan<- []*sdf.Triangle3, error) 
 
 	wg.Add(1)
 	go func() {
+		simYield("render.writeSTL.start", 0)
 		defer wg.Done()
 		defer f.Close()
 
